@@ -366,12 +366,48 @@ def partsEnts (c : Circuit) (nodes : Array CNode) (bind : Nat → Option Bind) (
       | _, _ => none
     else none
 
+/-- the `(type, value)` pairs of the literal parts `ps` (all must be constants below `n`) -/
+def constPairs (nodes : Array CNode) (n : Nat) : List Nat → Option SigMap
+  | [] => some []
+  | p :: ps =>
+    if p < n then
+      match nodes[p]?, constPairs nodes n ps with
+      | some (.const ty v), some r => some ((ty, v) :: r)
+      | _, _ => none
+    else none
+
+/-- the concatenated contents of constant combinators `es` (none of them a declared input) -/
+def constMaps (c : Circuit) (nodes : Array CNode) (bind : Nat → Option Bind) : List Nat → Option SigMap
+  | [] => some []
+  | e :: es =>
+    match c.kind e, constMaps c nodes bind es with
+    | .const m, some r => if notInputEnt nodes bind e then some (m ++ r) else none
+    | _, _ => none
+
+def hasEnts (c : Circuit) (nodes : Array CNode) (bind : Nat → Option Bind) (p : Nat) : Bool :=
+  (partEnts c nodes bind p).isSome
+
+def restOf (singles es : List Nat) : List Nat := es.filter (fun e => !singles.contains e)
+
+/-- a bundle literal is the wire-sum of `es`: the parts with entities of their own, plus inline literals that
+share constant combinators (the rest of `es`, whose contents are exactly those literals) -/
+def mergeOK (c : Circuit) (nodes : Array CNode) (bind : Nat → Option Bind) (n : Nat) (parts es : List Nat) : Bool :=
+  match partsEnts c nodes bind n (parts.filter (hasEnts c nodes bind)) with
+  | none => false
+  | some singles =>
+    match constPairs nodes n (parts.filter (fun p => !hasEnts c nodes bind p)) with
+    | none => false
+    | some K =>
+      match constMaps c nodes bind (restOf singles es) with
+      | none => false
+      | some mcat => mcat.isPerm K && es.isPerm (singles ++ restOf singles es)
+
 def RG : Sel := { red := true, green := true }
 
 /-- bundle node `nd` is the wire-sum of the outputs of `es` -/
 def checkMany (c : Circuit) (nodes : Array CNode) (bind : Nat → Option Bind) (n : Nat) (nd : CNode) (es : List Nat) : Bool :=
   match nd with
-  | .bmerge parts => (match partsEnts c nodes bind n parts with | some es' => es'.isPerm es | none => false)
+  | .bmerge parts => mergeOK c nodes bind n parts es
   | .beach op b k =>
     decide (b < n) && argBelow n k &&
     (match es, bind b with
@@ -427,6 +463,14 @@ def checkNode (c : Circuit) (nodes : Array CNode) (bind : Nat → Option Bind) (
   | some nd, some (.ent e s) => checkEnt c nodes bind n nd e s
   | some nd, some (.sum es s) => checkSum bind n nd es s
   | some nd, some (.many es) => checkMany c nodes bind n nd es
+
+/-- what an observer wired to entity `a` (an anchor: both colours of its input) reads is the value the binding
+`b` speaks about -/
+def obsOK (c : Circuit) (a : Nat) : Bind → Bool
+  | .ent e s => c.isolated a RG s e
+  | .sum es s => c.readsSum a RG s es
+  | .many es => c.carries a RG es
+  | .konst _ => false
 
 def checkAll (c : Circuit) (nodes : Array CNode) (bind : Nat → Option Bind) : Bool :=
   (List.range nodes.size).all (checkNode c nodes bind)
